@@ -5,6 +5,7 @@ package sut
 import (
 	"fmt"
 	"io"
+	"os"
 	"runtime/debug"
 
 	"github.com/robfig/soy"
@@ -89,9 +90,42 @@ func NewBundle(c *gen.Case, order []int) *soy.Bundle {
 		b.AddGlobalsMap(SharedGlobals)
 	}
 	if len(c.Globals) > 0 {
-		b.AddGlobalsMap(c.GlobalsMap())
+		if GlobalsAsFile || c.GlobalsFile {
+			b.AddGlobalsFile(globalsFile(c))
+		} else {
+			b.AddGlobalsMap(c.GlobalsMap())
+		}
 	}
 	return b
+}
+
+// GlobalsAsFile makes NewBundle hand the case's globals over through AddGlobalsFile (a file
+// written under the system's temporary directory, removed by Cleanup) instead of AddGlobalsMap.
+var GlobalsAsFile bool
+
+// tempFiles is touched only by single-task harnesses (cases with GlobalsFile are generated for
+// C13 alone): no lock, which would order the tasks of a concurrent harness.
+var tempFiles []string
+
+func globalsFile(c *gen.Case) string {
+	f, err := os.CreateTemp("", "verif-globals-*.txt")
+	if err != nil {
+		panic("harness: " + err.Error())
+	}
+	defer f.Close()
+	for _, kv := range c.Globals {
+		fmt.Fprintf(f, "%s = %s\n", kv.K, kv.V.Literal())
+	}
+	tempFiles = append(tempFiles, f.Name())
+	return f.Name()
+}
+
+// Cleanup removes the temporary files written by NewBundle.
+func Cleanup() {
+	for _, f := range tempFiles {
+		os.Remove(f)
+	}
+	tempFiles = nil
 }
 
 // SharedGlobals, if set, is added to every bundle built by NewBundle before the case's own globals.
@@ -117,16 +151,22 @@ func CompileInSim(c *gen.Case) (cc *Compiled, err error) {
 
 // CompileOrder compiles with an explicit file insertion order.
 func CompileOrder(c *gen.Case, order []int) (*Compiled, error) {
+	cc, _, err := CompileBundle(c, order)
+	return cc, err
+}
+
+// CompileBundle is CompileOrder that also returns the soy.Bundle when compilation fails.
+func CompileBundle(c *gen.Case, order []int) (*Compiled, *soy.Bundle, error) {
 	b := NewBundle(c, order)
 	reg, err := b.Compile()
 	if err != nil {
-		return nil, err
+		return nil, b, err
 	}
 	out := &Compiled{Case: c, Bundle: b, Reg: reg, Tofu: soyhtml.NewTofu(reg)}
 	for _, t := range reg.Templates {
 		faults.WalkMsgs(t.Node, func(m *ast.MsgNode) { out.Msgs = append(out.Msgs, m) })
 	}
-	return out, nil
+	return out, b, nil
 }
 
 // Escape describes a panic that escaped a soy entry point.
